@@ -137,6 +137,25 @@ def _cell_getstate():
     repaired form with filtering comprehensions"""
     fn = _norm(_func(CELL, "__getstate__", "Cell"))
     sts = _stmts(fn)
+    slot_iter = "self.__slots__"
+    # the repaired form first collects the slots of the whole class hierarchy (a superset of Cell.__slots__ for subclasses)
+    def mro_slots(st):
+        if not (isinstance(st, ast.Assign) and len(st.targets) == 1 and isinstance(st.targets[0], ast.Name)
+                and isinstance(st.value, ast.ListComp) and len(st.value.generators) == 2):
+            return False
+        g1, g2 = st.value.generators
+        return (not g1.ifs and not g2.ifs and isinstance(g1.target, ast.Name) and isinstance(g2.target, ast.Name)
+                and ast.unparse(g1.iter) == "type(self).__mro__"
+                and ast.unparse(g2.iter) == f"getattr({g1.target.id}, '__slots__', ())"
+                and ast.unparse(st.value.elt) == g2.target.id)
+    if sts and mro_slots(sts[0]):
+        # re-normalise the rest as if the helper variable were not there
+        fn2 = _func(CELL, "__getstate__", "Cell")
+        body = _stmts(fn2)
+        helper = body[0].targets[0].id
+        fn2.body = body[1:]
+        sts = _stmts(_norm(fn2))
+        slot_iter = helper
     if len(sts) < 2 or not isinstance(sts[0], ast.Assign) or ast.unparse(sts[0].targets[0]) != "v0" \
             or not (isinstance(sts[0].value, ast.Tuple) and len(sts[0].value.elts) == 2):
         raise T.Broken("Cell.__getstate__: expected `state = (<dict>, {<slots>})` first")
@@ -158,11 +177,18 @@ def _cell_getstate():
             and ast.unparse(sl.value) == f"getattr(self, {sl.generators[0].target.id})"):
         raise T.Broken("Cell.__getstate__: second state component is not {k: getattr(self, k) for k in ...}")
     it = ast.unparse(sl.generators[0].iter)
-    if it != "self.__slots__":
-        raise T.Broken(f"Cell.__getstate__ iterates over {it}, not over self.__slots__")
+    if it != slot_iter:
+        raise T.Broken(f"Cell.__getstate__ iterates over {it}, not over the slots of the class")
     tr = Tr(SLOT)
+    kvar = sl.generators[0].target.id
+    ifs = []
+    for c in sl.generators[0].ifs:
+        # `hasattr(self, k)` only skips slots that were never assigned: no effect on an initialised cell
+        parts = c.values if (isinstance(c, ast.BoolOp) and isinstance(c.op, ast.And)) else [c]
+        parts = [q for q in parts if ast.unparse(q) != f"hasattr(self, {kvar})"]
+        ifs += parts
     try:
-        conds = [tr.bexpr(c) for c in sl.generators[0].ifs]
+        conds = [tr.bexpr(c) for c in ifs]
     except pyexpr.Unsupported as e:
         raise T.Broken(f"Cell.__getstate__: slot filter outside the translated subset: {e}") from None
     body = "true"
